@@ -12,10 +12,10 @@ pub fn def() -> CheckDef {
         id: "C11",
         title: "The store always holds a complete image of what the engine knows",
         case,
-        rule: "case = generated model (control flow, catches, generated acts, set/code acts that write variables declared by enclosing scopes, workflow env and scripts that set $env) x scripted client using all action kinds incl. errors x store backend (in-memory, SQLite) x seeded schedule; at every quiescent point the live process (hook H1, cache only) is compared with the process row and the task rows: same task set, per task state / prev / data / err / start and end time, per process state / err / env. non-trivial = the run reached >= 3 quiescent points with a cached, unfinished process and a variable, env or error was written; distinct = distinct (scenario hash, schedule hash)",
+        rule: "case = generated model (control flow, catches, generated acts, a quarter with steps/branches/acts written without an id, set/code acts that write variables declared by enclosing scopes, workflow env and scripts that set $env) x scripted client using all action kinds incl. errors x store backend (in-memory, SQLite) x seeded schedule; at every quiescent point the live process (hook H1, cache only) is compared with the process row and the task rows: same task set, per task state / prev / data / err / start and end time, per process state / err / env. non-trivial = the run reached >= 3 quiescent points with a cached, unfinished process and a variable, env or error was written; distinct = distinct (scenario hash, schedule hash)",
         level: "exploration",
         assumptions: &["monotone simulated clock", "the live side is read through hook H1 without loading from the store", "no storage errors are injected"],
-        probes: &["probe.env_written_by_script", "probe.ancestor_variable_written", "probe.error_raised", "probe.catch_revive", "probe.else_branch_skipped", "probe.sqlite", "probe.generated_acts"],
+        probes: &["probe.env_written_by_script", "probe.ancestor_variable_written", "probe.error_raised", "probe.catch_revive", "probe.else_branch_skipped", "probe.sqlite", "probe.generated_acts", "probe.timeout_rule_fired"],
         quick_cases: 4000,
         no_shrink: &[],
     }
@@ -65,6 +65,32 @@ fn gen_scenario(rng: &mut vsim::rng::Rng) -> Scenario {
     sc.engine.store = if rng.below(3) == 0 { "sqlite".into() } else { "mem".into() };
     sc.engine.keep_processes = rng.below(2) == 0;
     sc.capture = true;
+    // timeout rules on some interrupts, and ticks (after a jump of the clock) while they are open: what a rule
+    // leaves on its task when it fires belongs to the stored image as well
+    if rng.below(4) == 0 {
+        let mut n = 0;
+        fn add_rules(steps: &mut [MStep], rng: &mut vsim::rng::Rng, n: &mut u32) {
+            for s in steps.iter_mut() {
+                for a in s.acts.iter_mut() {
+                    if matches!(a.kind, ActKind::Irq) && rng.below(2) == 0 {
+                        *n += 1;
+                        let on = rng.pick(&["2s", "5s", "1m"]).to_string();
+                        a.timeouts.push(MTimeout { on: on.clone(), steps: vec![MStep { id: format!("to{}", n), acts: vec![MAct { id: format!("to{}_m", n), key: format!("timeout{}", n), kind: if rng.below(2) == 0 { ActKind::Irq } else { ActKind::Msg }, ..Default::default() }], ..Default::default() }] });
+                    }
+                }
+                for b in s.branches.iter_mut() {
+                    add_rules(&mut b.steps, rng, n);
+                }
+            }
+        }
+        add_rules(&mut sc.models[0].steps, rng, &mut n);
+        sc.engine.tick_interval_secs = 1;
+        for _ in 0..(2 + rng.below(4)) {
+            let q = 1 + rng.below(8) as usize;
+            sc.faults.push(FaultOp { at_q: q, kind: "jump".into(), arg: *rng.pick(&[2_500_000i64, 6_000_000, 61_000_000]) });
+            sc.faults.push(FaultOp { at_q: q, kind: "tick".into(), arg: 0 });
+        }
+    }
     if rng.below(4) == 0 {
         let keep = opts.p_scripted > 0;
         anonymise(&mut sc.models[0], rng, 500, keep);
@@ -96,7 +122,7 @@ pub fn image_oracle(sc: &Scenario, rec: &RunRecord) -> Vec<Violation> {
                 // entry is removed with it
                 return vec![Violation::new("C11", "process_row_missing", json!({"backend": backend, "state": lp.state}), format!("quiescent point {}: process {} ({}) is cached but has no row", q.idx, lp.pid, lp.state))];
             };
-            let sig = |field: &str, node: &str, extra: &str| json!({"field": field, "node": node, "detail": extra});
+            let sig = |field: &str, node: &str, extra: &str| json!({"field": field, "node": node, "detail": if extra.starts_with("$is_timeout_") { "$is_timeout_<on>" } else { extra }});
             if lp.state != rp.state {
                 return vec![Violation::new("C11", "process_image_differs", sig("state", "process", &format!("{}->{}", rp.state, lp.state)), format!("quiescent point {}: process {} is {} in memory but {} in its row", q.idx, lp.pid, lp.state, rp.state))];
             }
@@ -165,6 +191,9 @@ pub fn case(ctx: &mut CaseCtx) -> CaseOut {
     }
     if has(&|a| matches!(&a.kind, ActKind::Block { .. } | ActKind::Parallel { .. } | ActKind::Sequence { .. })) {
         ctx.count("probe.generated_acts", 1);
+    }
+    if rec.msgs.iter().any(|m| m.key.starts_with("timeout")) {
+        ctx.count("probe.timeout_rule_fired", 1);
     }
     if rec.trans.iter().any(|t| t.new == "error") {
         ctx.count("probe.error_raised", 1);
